@@ -57,8 +57,9 @@ class TState:
 
 
 class Scheduler:
-    def __init__(self, chooser, max_steps=20000, trace_enabled=True):
+    def __init__(self, chooser, max_steps=20000, trace_enabled=True, line_preempt=False):
         self.chooser = chooser
+        self.line_preempt = line_preempt   # every source line of watchdog/* is a scheduling point (search mode)
         self.threads: dict[int, TState] = {}   # real ident -> TState
         self.by_name: dict[str, TState] = {}
         self.order: list[TState] = []
@@ -75,6 +76,22 @@ class Scheduler:
         self.name_counter: dict[str, int] = {}
         self.stuck: list[str] = []
         self.stuck_labels: dict[str, str] = {}
+
+    def _tracer(self, frame, event, arg):
+        """sys.settrace hook of managed threads in line-preemption mode"""
+        if "/watchdog/" not in frame.f_code.co_filename:
+            return None
+
+        def local(frame, event, arg):
+            if event == "line" and not self.dead and self.me() is not None:
+                self.yield_point(f"line {frame.f_code.co_name}:{frame.f_lineno}")
+            return local
+
+        return local
+
+    def _install_trace(self):
+        if self.line_preempt:
+            sys.settrace(self._tracer)
 
     # ----- naming
     def name(self, obj, role):
@@ -114,6 +131,8 @@ class Scheduler:
             return self.clock >= deadline
         if kind == "join":
             return obj.status == "done" or (deadline is not None and self.clock >= deadline)
+        if kind == "pred":       # generic: obj() says whether the thread may continue
+            return bool(obj()) or (deadline is not None and self.clock >= deadline)
         if kind == "sem":
             return obj._value > 0 or (deadline is not None and self.clock >= deadline)
         return False
@@ -199,6 +218,7 @@ class Scheduler:
             self.threads[_real["get_ident"]()] = ts
             self.by_name["main"] = ts
             self.order.append(ts)
+            self._install_trace()
             try:
                 result["value"] = fn(*args)
             except Killed:
@@ -255,6 +275,7 @@ class Scheduler:
             def body(i=i, fn=fn, ts=ts):
                 self.threads[_real["get_ident"]()] = ts
                 ts.baton.acquire()
+                self._install_trace()
                 try:
                     if not self.dead:
                         results[i] = fn()
@@ -622,6 +643,7 @@ def _thread_start(self):
     def run_wrapper():
         s.threads[_real["get_ident"]()] = ts
         ts.baton.acquire()          # wait to be scheduled for the first time
+        s._install_trace()
         try:
             if not s.dead:
                 orig_run()
